@@ -15,8 +15,59 @@ AGG = "uxarray/core/aggregation.py"
 CONN = "uxarray/grid/connectivity.py"
 
 
+def _uniform_reduction(run, P):
+    """all ten aggregations take the same route: every value returned/stored by the numpy kernels is aggregation_func(<gather>, axis=-1, **kwargs);
+    a per-function shortcut (e.g. an arithmetic mean written out) computes in the input's dtype and bypasses the kwargs"""
+    for key in ("uxarray/core/aggregation.py:_apply_node_to_edge_aggregation_numpy", "uxarray/core/aggregation.py:_apply_node_to_face_aggregation_numpy"):
+        f = P.func(key)
+        from ..astutil import LocalDefs
+        defs = LocalDefs(f.node)
+        c = f"{f.key}:every-result-through-aggregation-func"
+        bad = None
+        n = 0
+        for r in ast.walk(f.node):
+            if isinstance(r, ast.Return) and r.value is not None:
+                n += 1
+                nodes, names = defs.closure(r.value)
+                direct = any(isinstance(x, ast.Call) and isinstance(x.func, ast.Name) and x.func.id == "aggregation_func" for e in nodes for x in ast.walk(e))
+                via_result = "result" in names and any(isinstance(st, ast.Assign) and isinstance(st.targets[0], ast.Subscript) and norm(st.targets[0].value) == "result" for st in iter_stmts(f.node.body))
+                if not (direct or via_result):
+                    bad = r
+        if bad is not None:
+            run.violation("F-PATH/uniform-reduction", c, where(f, bad), f"{norm(bad)[:90]} does not come from aggregation_func(...): this shortcut computes in the dtype of the data (bool/narrow integers wrap or saturate) and ignores the keyword arguments")
+        elif n:
+            run.holds("F-PATH/uniform-reduction", c, where(f), f"all {n} return(s) carry results of aggregation_func(gather, axis=-1, **kwargs)")
+        else:
+            run.incomplete("F-PATH/uniform-reduction", c, where(f), "no return found")
+
+
+def _partition_order_restored(run, P):
+    """every consumer of get_face_node_partitions puts partition results back at the faces they were computed for: a scatter  result[..., sorted_ind[start:end]] = ...
+    or a gather through the INVERSE permutation np.argsort(sorted_ind); indexing the size-ordered results with sorted_ind itself permutes them a second time"""
+    for f in P.all_functions():
+        if f.module.relpath != "uxarray/core/aggregation.py":
+            continue
+        unp = next((st for st in iter_stmts(f.node.body) if isinstance(st, ast.Assign) and isinstance(st.targets[0], ast.Tuple) and isinstance(st.value, ast.Call) and (dotted(st.value.func) or [""])[-1] == "get_face_node_partitions"), None)
+        if unp is None:
+            continue
+        names = [norm(e) for e in unp.targets[0].elts]
+        if len(names) < 2:
+            continue
+        sorted_ind = names[1]
+        c = f"{f.key}:partition-order-restored"
+        wrong = [n for n in ast.walk(f.node) if isinstance(n, ast.Subscript) and isinstance(n.ctx, ast.Load) and isinstance(n.slice, ast.Tuple) and len(n.slice.elts) == 2 and norm(n.slice.elts[1]) == sorted_ind
+                 and not (isinstance(n.value, ast.Name))]
+        wrong += [n for n in ast.walk(f.node) if isinstance(n, ast.Subscript) and isinstance(n.ctx, ast.Load) and norm(n.slice) == sorted_ind and isinstance(n.value, ast.Call)]
+        if wrong:
+            run.violation("IDX/partition-order", c, where(f, wrong[0]), f"{norm(wrong[0])[:80]}: results ordered by face size are gathered with {sorted_ind}; restoring the grid order needs the inverse permutation (np.argsort({sorted_ind})) or a scatter at {sorted_ind}[start:end]")
+        else:
+            run.holds("IDX/partition-order", c, where(f, unp), f"no gather of size-ordered results through {sorted_ind}")
+
+
 def check(run):
     P = run.program
+    _uniform_reduction(run, P)
+    _partition_order_restored(run, P)
     from ..rules import dtype as _dt
     _dt.check_float_results(run, P, ["uxarray/core/aggregation.py:_apply_node_to_face_aggregation_numpy", "uxarray/core/aggregation.py:_apply_node_to_edge_aggregation_numpy",
                                     "uxarray/core/aggregation.py:_node_to_face_aggregation", "uxarray/core/aggregation.py:_node_to_edge_aggregation"])
